@@ -427,6 +427,76 @@ def main():
                     solvers.dirk_step, solvers.rosenbrock_step = orig_dirk_step, orig_ros_step
                     solvers.newton, solvers.make_solver = orig_newton, orig_make_solver
                 res['attempts'] = attempts
+            elif kind == 'xtrace':
+                # an adaptive shipped method through its REAL driver on a problem whose right-hand side
+                # leaves its domain / overflows for a too large trial step (non-finite trial steps):
+                #   'sqrt': F(h) = -k sqrt(h)   (NaN for h < 0),   'exp': F(y) = c exp(a y)  (inf by overflow)
+                # every call of the step function is recorded (x, tau, outcome) up to an evaluation budget
+                name = task['name']
+                meth = getattr(solvers, name)
+                M = mk_matrix(task['Mkind'], task.get('M'))
+                kv = np.array(task['k'], dtype=float)
+                av = np.array(task.get('a', [0.0] * len(kv)), dtype=float)
+                prob = task['problem']
+                sparseJ = task.get('Jkind') == 'sparse'
+
+                def F(y):
+                    y = np.asarray(y, dtype=float)
+                    if prob == 'sqrt':
+                        return -kv * np.sqrt(y)
+                    return kv * np.exp(av * y)
+
+                def J(y):
+                    y = np.asarray(y, dtype=float)
+                    if prob == 'sqrt':
+                        D = np.diag(-kv / (2 * np.sqrt(y)))
+                    else:
+                        D = np.diag(kv * av * np.exp(av * y))
+                    return scipy.sparse.csr_matrix(D) if sparseJ else D
+                x0 = np.array(task['x'], dtype=float)
+                attempts = []
+                cap = int(task.get('max_attempts', 400))
+
+                class TooMany(Exception):
+                    pass
+
+                def wrap(orig, ix, itau):
+                    def rec(*a, **kw):
+                        if len(attempts) >= cap:
+                            raise TooMany()
+                        ent = {'x': fl(a[ix]), 'tau': float(a[itau])}
+                        attempts.append(ent)
+                        try:
+                            r = orig(*a, **kw)
+                        except solvers.NoConvergenceError:
+                            ent['status'] = 'NoConvergence'
+                            raise
+                        except Exception as e:  # noqa
+                            ent['status'] = errclass(e)
+                            raise
+                        ent['status'] = 'Ok'
+                        ent['ntuple'] = len(r)
+                        ent['x_new'] = fl(r[0])
+                        ent['x_est'] = fl(r[1]) if len(r) == 3 else None
+                        return r
+                    return rec
+                solvers.dirk_step = wrap(orig_dirk_step, 4, 5)
+                solvers.rosenbrock_step = wrap(orig_ros_step, 7, 8)
+                try:
+                    kw = {'t0': task['t0']}
+                    if task.get('step_factor') is not None:
+                        kw['step_factor'] = task['step_factor']
+                    try:
+                        with np.errstate(all='ignore'):
+                            times, sols = meth(M, F, J, x0, task['tau'], task['t_end'], task['tol'], **kw)
+                        res['times'] = [float(t) for t in times]
+                        res['sols'] = [fl(s) for s in sols]
+                        res['too_many'] = False
+                    except TooMany:
+                        res['too_many'] = True
+                finally:
+                    solvers.dirk_step, solvers.rosenbrock_step = orig_dirk_step, orig_ros_step
+                    res['attempts'] = attempts
             else:
                 raise RuntimeError('unknown task kind ' + kind)
             res['status'] = 'Ok'
